@@ -103,7 +103,7 @@ def pairs(tier):
 
 def blocks(tier):
     n = min(NBLOCKS[tier], len(pairs(tier)))
-    return [{"tier": tier, "k": k, "of": n} for k in range(n)] + [{"tier": tier, "space": "environment"}]
+    return [{"tier": tier, "k": k, "of": n} for k in range(n)] + [{"tier": tier, "space": "environment"}, {"tier": tier, "space": "decimal"}]
 
 
 def env_workload():
@@ -164,9 +164,69 @@ def cases_of(tier, s, L):
                 yield {"s": s, "L": L, "d": d, "h": h, "incl": incl}
 
 
+DEC = {"start": [1.0, 100.0, 0.3], "length": [1.0, 7.3, 60.0], "duration": [0.1, 0.2, 0.3, 1.1], "hop": [None, 0.1, 0.7]}
+
+
+def decimal_cases():
+    for s in DEC["start"]:
+        for L in DEC["length"]:
+            for d in DEC["duration"]:
+                for h in DEC["hop"]:
+                    for incl in (False, True):
+                        yield {"space": "decimal", "s": s, "L": L, "d": d, "h": h, "incl": incl}
+
+
+def run_decimal(case):
+    """Decimal (non-dyadic) durations and hops on clips that do not start at 0: floating point rounds every step, so the lattice is
+    judged to a few units in the last place of the exact value (computed in Fraction from the float inputs) and the number of
+    windows only between the count that fits with 1e-9 to spare and the count that fits when 1e-9 is forgiven."""
+    import math
+    out = Out(case)
+    s, L, d, incl = case["s"], case["L"], case["d"], case["incl"]
+    h = case["h"]
+    e = s + L
+    clip = data.Clip(uuid=U("c14:clip:dec"), recording=rec_(1.0), start_time=s, end_time=e)
+    res = call(clip, d, h, incl)
+    out.transitions = out.validated = 1
+    out.nontrivial = True
+    cls = _cls("decimal", incl=incl, hop="none" if h is None else "given")
+    if res[0] != "ok":
+        out.fail("equals_model", list(res), "a list of clips", cls)
+        return out
+    got = [(c.start_time, c.end_time) for c in res[1]]
+    fs, fe, fd, fh = F(s), F(e), F(d), F(d if h is None else h)
+    tol = F(1, 10 ** 9)
+
+    def count(slack):
+        n = i = 0
+        while fs + i * fh < fe + slack and i < 100000:
+            if incl or fs + i * fh + fd <= fe + slack:
+                n += 1
+            elif not incl:
+                break
+            i += 1
+        return n
+    lo, hi = count(-tol), count(tol)
+    out.expect("window_count", lo <= len(got) <= hi, len(got), [lo, hi], cls)
+    bad = None
+    for i, (a, b) in enumerate(got):
+        ea = fs + i * fh
+        eb = min(ea + fd, fe)
+        if abs(F(a) - ea) > 4 * F(math.ulp(a)) or abs(F(b) - eb) > 4 * F(math.ulp(b)):
+            bad = {"index": i, "got": [a, b], "exact": [float(ea), float(eb)]}
+            break
+    out.expect("on_lattice_to_4ulp", bad is None, bad, "start + i*hop and start + i*hop + duration (or the clip end), correctly rounded to 4 ulp", cls)
+    out.klass = "decimal:%s:%s" % ("incl" if incl else "strict", "0" if not got else "1" if len(got) == 1 else "2+")
+    return out
+
+
 def run_block(block, rec):
     if block.get("space") == "environment":
         rec.add(run_environment({"space": "environment"}))
+        return
+    if block.get("space") == "decimal":
+        for case in decimal_cases():
+            rec.add(run_decimal(case))
         return
     tier = block["tier"]
     for s, L in pairs(tier)[block["k"]::block["of"]]:
@@ -228,6 +288,8 @@ def _cls(kind, **kw):
 def run_case(case):
     if case.get("space") == "environment":
         return run_environment(case)
+    if case.get("space") == "decimal":
+        return run_decimal(case)
     out = Out(case)
     s, L, d, h, incl = case["s"], case["L"], case["d"], case["h"], bool(case["incl"])
     e = s + L
